@@ -246,8 +246,10 @@ impl<'tcx> Ctx<'tcx> {
                         let fields: Vec<String> =
                             adt.variant(*v).fields.iter().map(|f| esc(&f.name.to_string())).collect();
                         format!(
-                            "{{\"k\":\"adt\",\"name\":{},\"variant\":{},\"vname\":{},\"fields\":[{}]}}",
+                            "{{\"k\":\"adt\",\"name\":{},\"enum\":{},\"nvariants\":{},\"variant\":{},\"vname\":{},\"fields\":[{}]}}",
                             esc(&self.tcx.def_path_str(*did)),
+                            adt.is_enum(),
+                            adt.variants().len(),
                             v.as_usize(),
                             esc(&vn),
                             fields.join(",")
